@@ -24,7 +24,7 @@ A counterexample of an abstract query is only a candidate: it is run on the REAL
 inputs first, then a seeded search over special float values); only a reproducing input is
 reported, otherwise the obligation is inconclusive.
 """
-import math
+import ast
 
 import z3
 
@@ -87,7 +87,6 @@ def fpv(x):
 class Run:
     """one translation of action() on a symbolic controller"""
     def __init__(self, sess, suffix="", share=None):
-        import ast
         self.v = dict(share or {})
         for n in FPS:
             self.v.setdefault(n, z3.FP(n + suffix, F))
